@@ -7,10 +7,11 @@ use fbh::Ctx;
 use std::panic::AssertUnwindSafe;
 use indexmap::{IndexMap, IndexSet};
 use duke::tree::class::{ClassName, ClassNameSlice, ObjClassName, ObjClassNameSlice};
-use duke::tree::descriptor::ReturnDescriptorSlice;
+use duke::tree::descriptor::{ArrayType, ParsedFieldDescriptor, ParsedMethodDescriptor, ParsedReturnDescriptor, ReturnDescriptor, ReturnDescriptorSlice, Type};
+use duke::tree::field::FieldDescriptor;
 use duke::tree::field::{FieldDescriptorSlice, FieldNameSlice, FieldRef};
 use duke::tree::method::{MethodDescriptorSlice, MethodNameAndDesc, MethodNameSlice, MethodRef, MethodRefObj};
-use quill::remapper::{ARemapper, BRemapper, JarSuperProv};
+use quill::remapper::{ARemapper, BRemapper, JarSuperProv, NoSuperClassProvider};
 use quill::tree::mappings::Mappings;
 use quill::tree::names::Namespace;
 
@@ -271,18 +272,55 @@ impl<'a> Ref<'a> {
 		let mut out = vec![];
 		let mut stack = vec![c.clone()];
 		while let Some(x) = stack.pop() {
-			if out.len() > 100_000 { break; }
+			if out.len() > 20_000 { break; }
 			if let Some(ss) = self.supers(&x) { for y in ss.iter().rev() { stack.push(y.clone()); } }
 			out.push(x);
 		}
 		out
 	}
-	fn member_fail(&self, method: bool, c: &S, k: &Key) -> Result<Vec<Key>, ()> {
-		for x in self.preorder(c) {
-			let d = self.declared(method, &x, k)?;
-			if !d.is_empty() { return Ok(d); }
+	/// Ok(None): the search meets a class that is already on its current path before it finds the key
+	/// (cyclic inheritance: the implementation must answer Err).  Own recursive search that carries the path;
+	/// its depth is bounded by the number of distinct classes.
+	fn search(&self, method: bool, c: &S, k: &Key, path: &mut Vec<S>) -> Result<Option<Vec<Key>>, ()> {
+		if path.contains(c) { return Ok(None); }
+		let d = self.declared(method, c, k)?;
+		if !d.is_empty() { return Ok(Some(d)); }
+		if let Some(ss) = self.supers(c) {
+			path.push(c.clone());
+			for x in ss {
+				match self.search(method, x, k, path)? { None => return Ok(None), Some(v) if !v.is_empty() => return Ok(Some(v)), Some(_) => {} }
+			}
+			path.pop();
 		}
-		Ok(vec![])
+		Ok(Some(vec![]))
+	}
+	/// Err(()): cannot tell (ambiguous / malformed row); Ok(None): cyclic inheritance met; Ok(Some(v)): the candidates (empty = declared nowhere)
+	/// Acyclic providers (any size: towers of diamonds have exponentially many paths) are answered by a different,
+	/// two-phase algorithm: bottom-up "does anything below declare the key" with a table, then one walk along the
+	/// first promising super type; cyclic providers (small) by the path-carrying recursion above.
+	fn member_fail(&self, method: bool, c: &S, k: &Key) -> Result<Option<Vec<Key>>, ()> {
+		if !acyclic(self.inh) { return self.search(method, c, k, &mut vec![]); }
+		let mut below: std::collections::HashMap<S, bool> = std::collections::HashMap::new();
+		// Some(declares or cannot tell) per class, children first (explicit stack)
+		let mut stack: Vec<(S, bool)> = vec![(c.clone(), false)];
+		while let Some((x, expanded)) = stack.pop() {
+			if below.contains_key(&x) { continue; }
+			let kids: Vec<S> = self.supers(&x).cloned().unwrap_or_default();
+			if !expanded {
+				stack.push((x.clone(), true));
+				for y in kids { if !below.contains_key(&y) { stack.push((y, false)); } }
+			} else {
+				let own = match self.declared(method, &x, k) { Ok(v) => !v.is_empty(), Err(()) => true };
+				let b = own || kids.iter().any(|y| below[y]);
+				below.insert(x, b);
+			}
+		}
+		let mut x = c.clone();
+		loop {
+			let d = self.declared(method, &x, k)?;
+			if !d.is_empty() { return Ok(Some(d)); }
+			match self.supers(&x).and_then(|ss| ss.iter().find(|y| below[*y])) { Some(y) => x = y.clone(), None => return Ok(Some(vec![])) }
+		}
 	}
 	fn class(&self, c: &S) -> Vec<S> { let v = self.class_cands(self.from, self.to, c); if v.is_empty() { vec![c.clone()] } else { v } }
 
@@ -306,14 +344,15 @@ impl<'a> Ref<'a> {
 			Q::FieldFail(o, k) | Q::MethodFail(o, k) => {
 				match self.member_fail(matches!(q, Q::MethodFail(..)), o, k) {
 					Err(()) => Want::Unspecified,
-					Ok(v) if v.is_empty() => Want::Exactly(Ans::ROptKey(Some(None))),
-					Ok(v) => one(v.into_iter().map(|x| Ans::ROptKey(Some(Some(x)))).collect()),
+					Ok(None) => Want::Exactly(Ans::ROptKey(None)),
+					Ok(Some(v)) if v.is_empty() => Want::Exactly(Ans::ROptKey(Some(None))),
+					Ok(Some(v)) => one(v.into_iter().map(|x| Ans::ROptKey(Some(Some(x)))).collect()),
 				}
 			}
-			Q::Field(o, k) | Q::Method(o, k) => match self.member(matches!(q, Q::Method(..)), o, k) { None => Want::Unspecified, Some(v) => one(v.into_iter().map(|x| Ans::RKey(Some(x))).collect()) },
+			Q::Field(o, k) | Q::Method(o, k) => match self.member(matches!(q, Q::Method(..)), o, k) { None => Want::Unspecified, Some(None) => Want::Exactly(Ans::RKey(None)), Some(Some(v)) => one(v.into_iter().map(|x| Ans::RKey(Some(x))).collect()) },
 			Q::FieldRef(o, k) | Q::MethodRefObj(o, k) => {
 				let cs = self.class(o);
-				match self.member(matches!(q, Q::MethodRefObj(..)), o, k) { None => Want::Unspecified, Some(v) => one(v.into_iter().flat_map(|x| cs.iter().map(move |c| Ans::RKey3(Some((c.clone(), x.clone()))))).collect()) }
+				match self.member(matches!(q, Q::MethodRefObj(..)), o, k) { None => Want::Unspecified, Some(None) => Want::Exactly(Ans::RKey3(None)), Some(Some(v)) => one(v.into_iter().flat_map(|x| cs.iter().map(move |c| Ans::RKey3(Some((c.clone(), x.clone()))))).collect()) }
 			}
 			Q::MethodRef(o, k) => {
 				if o.first() == Some(&('[' as u32)) {
@@ -321,19 +360,20 @@ impl<'a> Ref<'a> {
 					match self.desc(self.from, self.to, o) { Some(Some(c)) => Want::Exactly(Ans::RKey3(Some((c, k.clone())))), _ => Want::Unspecified }
 				} else {
 					let cs = self.class(o);
-					match self.member(true, o, k) { None => Want::Unspecified, Some(v) => one(v.into_iter().flat_map(|x| cs.iter().map(move |c| Ans::RKey3(Some((c.clone(), x.clone()))))).collect()) }
+					match self.member(true, o, k) { None => Want::Unspecified, Some(None) => Want::Exactly(Ans::RKey3(None)), Some(Some(v)) => one(v.into_iter().flat_map(|x| cs.iter().map(move |c| Ans::RKey3(Some((c.clone(), x.clone()))))).collect()) }
 				}
 			}
 		}
 	}
 	/// map_field / map_method: found, else unchanged name with rewritten descriptor (only specified for grammar descriptors)
-	fn member(&self, method: bool, o: &S, k: &Key) -> Option<Vec<Key>> {
-		let v = self.member_fail(method, o, k).ok()?;
-		if !v.is_empty() { return Some(v); }
+	/// None: unspecified; Some(None): cyclic inheritance met (Err); Some(Some(candidates))
+	fn member(&self, method: bool, o: &S, k: &Key) -> Option<Option<Vec<Key>>> {
+		let Some(v) = self.member_fail(method, o, k).ok()? else { return Some(None) };
+		if !v.is_empty() { return Some(Some(v)); }
 		let in_grammar = if method { o_method(&k.1).is_some() } else { o_field(&k.1).is_some() };
 		if !in_grammar { return None; }
 		let d = self.desc(self.from, self.to, &k.1)??;
-		Some(vec![(k.0.clone(), d)])
+		Some(Some(vec![(k.0.clone(), d)]))
 	}
 }
 
@@ -341,7 +381,9 @@ impl<'a> Ref<'a> {
 // generators
 // =====================================================================================
 #[derive(Clone)]
-struct World { m: MMappings, from: usize, to: usize, provs: Vec<Vec<(S, Vec<S>)>>, queries: Vec<Q>, kind: &'static str }
+struct World { m: MMappings, from: usize, to: usize, provs: Vec<Vec<(S, Vec<S>)>>, queries: Vec<Q>, kind: &'static str,
+	/// a hierarchy with exponentially many paths: nothing that enumerates the pre-order is evaluated (statistics, the hypotheses of the inherited round trip)
+	big: bool }
 
 const CLS0: [&str; 18] = ["A", "B", "C", "D", "E", "L", "LL", "a/B", "p/q/L", "A$B", "A$1", "Ü", "名/π", "x", "I", "La", "net/minecraft/C_12", "\u{10400}"];
 const UNMAPPED: [&str; 4] = ["U", "V$1", "java/lang/Object", "L"];
@@ -371,7 +413,7 @@ fn gen_mdesc(rng: &mut Rng, classes: &[S]) -> S {
 	d
 }
 
-struct WCfg { n: usize, injective: bool, malformed: bool, kind: &'static str }
+struct WCfg { n: usize, injective: bool, malformed: bool, overlap: bool, cyclic: bool, kind: &'static str }
 
 fn gen_world(rng: &mut Rng, cfg: &WCfg) -> World {
 	let n = cfg.n;
@@ -381,13 +423,18 @@ fn gen_world(rng: &mut Rng, cfg: &WCfg) -> World {
 	let ncls = rng.range(1, 7);
 	let mut names0: Vec<S> = vec![];
 	while names0.len() < ncls { let c = s(*rng.pick(&CLS0[..])); if !names0.contains(&c) { names0.push(c); } }
-	let absent = if cfg.injective { 6 } else { 4 }; // one in `absent` non-first cells is missing
+	let absent = if cfg.overlap { 10 } else if cfg.injective { 6 } else { 4 }; // one in `absent` non-first cells is missing
+	// overlapping stream: every namespace draws its class names from the SAME pool, injectively per
+	// namespace (a name of one namespace is usually some other class's name in another namespace:
+	// A -> B, B -> C, C -> A), half of the worlds with complete class rows
+	let pools: Vec<Vec<S>> = if cfg.overlap { (0..n).map(|_| { let mut p: Vec<S> = CLS0.iter().map(|x| s(x)).collect(); rng.shuffle(&mut p); p }).collect() } else { vec![] };
+	let complete = cfg.overlap && rng.chance(1, 2);
 	let mut classes: Vec<MClass> = vec![];
 	for (ci, c0) in names0.iter().enumerate() {
 		let mut row: NamesRow = vec![Some(c0.clone())];
 		for j in 1..n {
-			if rng.chance(1, absent) { row.push(None); continue; }
-			let nm = if cfg.injective {
+			if !complete && rng.chance(1, absent) { row.push(None); continue; }
+			let nm = if cfg.overlap { pools[j][ci].clone() } else if cfg.injective {
 				let mut x = if rng.chance(1, 3) { s(&format!("ns{j}/")) } else { vec![] };
 				x.extend(c0.iter().map(|&c| if c == '/' as u32 { '_' as u32 } else { c })); x.extend(s(&format!("_{j}")));
 				if rng.chance(1, 6) { x.extend(s("$L")); }
@@ -413,7 +460,10 @@ fn gen_world(rng: &mut Rng, cfg: &WCfg) -> World {
 		let mut row: NamesRow = vec![Some(name0.clone())];
 		for j in 1..n {
 			if rng.chance(1, absent + 1) { row.push(None); continue; }
-			let nm = if cfg.injective {
+			let nm = if cfg.overlap {
+				// the same small name set in every namespace, rotated: injective per class table, overlapping across namespaces
+				if ki >= 10 { s(MNAMES[(ki - 10 + j) % MNAMES.len()]) } else { s(FNAMES[(ki + j) % FNAMES.len()]) }
+			} else if cfg.injective {
 				let mut x = name0.iter().map(|&c| if c == '<' as u32 || c == '>' as u32 { '_' as u32 } else { c }).collect::<S>();
 				x.extend(s(&format!("_{j}k{ki}"))); if rng.chance(1, 3) { x.extend(s(&format!("c{ci}"))); }
 				x
@@ -452,6 +502,16 @@ fn gen_world(rng: &mut Rng, cfg: &WCfg) -> World {
 		// the last node of the order is "java/lang/Object"-like: sometimes without an entry at all
 		if ded.is_empty() && rng.chance(1, 2) { continue; }
 		inh.push((nodes[i].clone(), ded));
+	}
+	// cyclic stream: one or two extra edges to an arbitrary entry (a self loop, a back edge closing a cycle of
+	// any length, or a harmless forward edge), at an arbitrary position of the declaration order
+	if cfg.cyclic && !inh.is_empty() {
+		for _ in 0..rng.range(1, 2) {
+			let (i, j) = (rng.below(inh.len()), rng.below(inh.len()));
+			let tgt = inh[j].0.clone();
+			let pos = rng.below(inh[i].1.len() + 1);
+			if !inh[i].1.contains(&tgt) { inh[i].1.insert(pos, tgt); }
+		}
 	}
 	rng.shuffle(&mut inh);
 	let provs: Vec<Vec<(S, Vec<S>)>> = if rng.chance(1, 3) && inh.len() >= 2 {
@@ -512,6 +572,13 @@ fn gen_world(rng: &mut Rng, cfg: &WCfg) -> World {
 		if rng.chance(1, 3) { let mut a = vec!['[' as u32; rng.range(1, 3)]; a.push('L' as u32); a.extend(c.clone()); a.push(';' as u32); queries.push(Q::ClassAny(a)); }
 	}
 	for a in ["[I", "[[[D", "[", "[L;", "[LA", "[[LA;"] { if rng.chance(1, 4) { queries.push(Q::ClassAny(s(a))); } }
+	// array dimensions at the limit of the grammar: 255 is a descriptor, 256 is not (the scanner copies the brackets either way)
+	if rng.chance(1, 6) {
+		let dims = if rng.chance(1, 2) { 255 } else { 256 };
+		let mut a = vec!['[' as u32; dims];
+		if rng.chance(1, 2) { a.push('L' as u32); a.extend(rng.pick(&cls[..]).clone()); a.push(';' as u32); } else { a.push('J' as u32); }
+		queries.push(match rng.below(3) { 0 => Q::ClassAny(a), 1 => Q::Desc(0, a), _ => { let mut m = s("("); m.extend(a); m.extend(s(")V")); Q::Desc(1, m) } });
+	}
 	for _ in 0..4 {
 		queries.push(Q::Desc(0, gen_fdesc(rng, &cls)));
 		queries.push(Q::Desc(1, gen_mdesc(rng, &cls)));
@@ -520,7 +587,7 @@ fn gen_world(rng: &mut Rng, cfg: &WCfg) -> World {
 	}
 	queries.push(Q::Desc(rng.below(3) as u8, s(*rng.pick(&BAD_DESCS[..]))));
 	queries.push(Q::Desc(rng.below(3) as u8, s(*rng.pick(&ODD_DESCS[..]))));
-	World { m, from, to, provs, queries, kind: cfg.kind }
+	World { m, from, to, provs, queries, kind: cfg.kind, big: false }
 }
 
 fn build_provs(provs: &[Vec<(S, Vec<S>)>]) -> Vec<JarSuperProv> {
@@ -566,9 +633,11 @@ fn run_world<const N: usize>(r: &mut Report, w: &World) -> anyhow::Result<()> {
 	let rf = Ref { m: &w.m, from: w.from, to: w.to, inh: &inh };
 	let stream = w.kind;
 	// worlds of these streams are generated inside the decidable hypotheses of the theorems; the model re-checks that
-	let hyp = w.kind == "injective" || w.kind == "fixed";
+	let hyp = w.kind == "injective" || w.kind == "overlapping" || w.kind == "fixed";
 	if hyp { r.count("worlds_inside_theorem_hypotheses"); }
 	let canon = format!("{}|{}|{}|{}", g_mappings(&w.m), w.from, w.to, g_inh(&inh));
+	let acyc = acyclic(&inh);
+	r.count(if acyc { "provider_acyclic" } else { "provider_cyclic" });
 	fbh::report::crumb(&replay_text(w, &inh, "the process died (stack overflow / abort / endless loop) while the remappers of this world were built or queried"));
 	r.count(&format!("namespaces_{N}"));
 	r.count(&format!("from_{}", if w.from == 0 { "first" } else { "not_first" }));
@@ -585,7 +654,7 @@ fn run_world<const N: usize>(r: &mut Report, w: &World) -> anyhow::Result<()> {
 			for q in w.queries.iter().filter(|q| matches!(q, Q::Class(_) | Q::ClassFail(_) | Q::ClassAny(_) | Q::Desc(..))) {
 				match eval_a(&ra, q).unwrap() {
 					Err(p) => r.violation(format!("ARemapperImpl::{} failed: {p}", show_q(q)), replay_text(w, &inh, &show_q(q))),
-					Ok(a) => { judge(r, w, &inh, &rf, q, &a, "ARemapperImpl"); out.push(g_query(q, &a)); }
+					Ok(a) => { judge(r, w, &inh, &rf, q, &a, "ARemapperImpl"); shape_law(r, &ra, q, "ARemapperImpl", &|what| replay_text(w, &inh, what)); out.push(g_query(q, &a)); }
 				}
 			}
 			// the same table as a BRemapper without member tables
@@ -620,7 +689,7 @@ fn run_world<const N: usize>(r: &mut Report, w: &World) -> anyhow::Result<()> {
 			// remapper_b may only fail when some descriptor of a row is outside the grammar
 			let all_ok = w.m.classes.iter().all(|c| c.fields.iter().all(|f| o_field(&f.desc).is_some()) && c.methods.iter().all(|me| o_method(&me.desc).is_some()));
 			if all_ok { r.violation("remapper_b returned Err although every descriptor of the mappings is a valid descriptor".into(), replay_text(w, &inh, "remapper_b returned Err")); }
-			r.case(stream, format!("CB {} {} {} {} {} {qa} false [] [] []", gbool(hyp), g_mappings(&w.m), w.from, w.to, g_provs(&prov_lists(&provs))));
+			r.case(stream, format!("CB {} false {} {} {} {} {qa} false [] [] []", gbool(hyp), g_mappings(&w.m), w.from, w.to, g_provs(&prov_lists(&provs))));
 			return Ok(());
 		}
 		Ok(Ok(rb)) => rb,
@@ -632,15 +701,18 @@ fn run_world<const N: usize>(r: &mut Report, w: &World) -> anyhow::Result<()> {
 			Err(p) => r.violation(format!("BRemapperImpl::{} failed: {p}", show_q(q)), replay_text(w, &inh, &show_q(q))),
 			Ok(a) => {
 				let verdict = judge(r, w, &inh, &rf, q, &a, "BRemapperImpl");
+				shape_law(r, &rb, q, "BRemapperImpl", &|what| replay_text(w, &inh, what));
 				match (&a, q) {
 					(Ans::ROptKey(Some(Some(_))), _) => { hits += 1; r.count("member_found"); }
 					(Ans::RKey(Some(k2)), Q::Field(_, k) | Q::Method(_, k)) if k2.0 != k.0 => { hits += 1; r.count("member_found"); }
 					(Ans::RKey(Some(_)), _) => r.count("member_fallback"),
+					(Ans::RKey(None) | Ans::RKey3(None) | Ans::ROptKey(None), Q::Field(o, k) | Q::Method(o, k) | Q::FieldFail(o, k) | Q::MethodFail(o, k) | Q::FieldRef(o, k) | Q::MethodRefObj(o, k))
+						if rf.member_fail(matches!(q, Q::Method(..) | Q::MethodFail(..) | Q::MethodRefObj(..)), o, k) == Ok(None) => r.count("answer_err_cyclic_inheritance"),
 					(Ans::RKey(None) | Ans::RKey3(None) | Ans::RStr(None) | Ans::ROptKey(None), _) => r.count("answer_err"),
 					_ => {}
 				}
 				let _ = verdict;
-				if let Q::Field(o, k) | Q::Method(o, k) | Q::FieldFail(o, k) | Q::MethodFail(o, k) = q {
+				if let (true, Q::Field(o, k) | Q::Method(o, k) | Q::FieldFail(o, k) | Q::MethodFail(o, k)) = (acyc && !w.big, q) {
 					let method = matches!(q, Q::Method(..) | Q::MethodFail(..));
 					let pre = rf.preorder(o);
 					let decl: Vec<usize> = pre.iter().enumerate().filter(|(_, x)| rf.declared(method, x, k).map(|v| !v.is_empty()).unwrap_or(false)).map(|(i, _)| i).collect();
@@ -661,8 +733,10 @@ fn run_world<const N: usize>(r: &mut Report, w: &World) -> anyhow::Result<()> {
 	r.eval(&canon, hits > 0);
 	r.count(&format!("queries_per_world_{}", (w.queries.len() / 10) * 10));
 	// ---- X -> Y -> X on the implementation ----
-	let (psy, rts) = roundtrip::<N>(r, w, &qm, &rb, &provs, &inh);
-	r.case(stream, format!("CB {} {} {} {} {} {qa} true {} {psy} {rts}", gbool(hyp), g_mappings(&w.m), w.from, w.to, g_provs(&prov_lists(&provs)), glist(out)));
+	let coh = member_desc_law(r, w, &inh, &rf, &rb);
+	fbh::report::crumb(&replay_text(w, &inh, "the process died (stack overflow / abort / endless loop) on the way back: JarSuperProv::remap through the forward remapper, remapper_b(to, from) on the remapped providers, or a query against it"));
+	let (psy, rts) = roundtrip::<N>(r, w, &qm, &rb, &provs, &inh, acyc);
+	r.case(stream, format!("CB {} {} {} {} {} {} {qa} true {} {psy} {rts}", gbool(hyp), gbool(coh), g_mappings(&w.m), w.from, w.to, g_provs(&prov_lists(&provs)), glist(out)));
 	Ok(())
 }
 
@@ -679,16 +753,130 @@ fn judge(r: &mut Report, w: &World, inh: &[(S, Vec<S>)], rf: &Ref, q: &Q, a: &An
 	ok
 }
 
+/// The shape law with duke's OWN descriptor parser and printer (duke/src/tree/descriptor.rs), on the implementation
+/// alone: a descriptor the parser accepts is rewritten to exactly what one gets by parsing it, sending the class
+/// names of the parsed type through `map_class` of the same remapper, and writing the type again; and the parser
+/// accepts exactly the strings of the reference grammar.  Also FieldDescriptor::from_class commutes with
+/// map_class_any, and ReturnDescriptor::from(FieldDescriptor) with the rewrite.
+fn shape_law<R: ARemapper + ?Sized>(r: &mut Report, rm: &R, q: &Q, who: &str, replay: &dyn Fn(&str) -> String) {
+	fn map_ty<R: ARemapper + ?Sized>(rm: &R, t: &Type) -> anyhow::Result<Type> {
+		Ok(match t {
+			Type::Object(n) => Type::Object(rm.map_class(n)?),
+			Type::Array(d, ArrayType::Object(n)) => match n.as_obj() { Some(o) => Type::Array(*d, ArrayType::Object(rm.map_class(o)?.into())), None => t.clone() },
+			other => other.clone(),
+		})
+	}
+	match q {
+		Q::Desc(kind, d) => {
+			let js = jstring(d);
+			let parsed = std::cell::Cell::new(false);
+			let (accepted, via_tree): (bool, Option<S>) = match guarded(AssertUnwindSafe(|| -> anyhow::Result<S> {
+				Ok(match kind {
+					0 => { let p = unsafe { FieldDescriptorSlice::from_inner_unchecked(&js) }.parse()?; parsed.set(true); cps(ParsedFieldDescriptor(map_ty(rm, &p.0)?).write().as_inner()) }
+					1 => { let p = unsafe { MethodDescriptorSlice::from_inner_unchecked(&js) }.parse()?; parsed.set(true);
+						let ps = p.parameter_descriptors.iter().map(|t| map_ty(rm, t)).collect::<anyhow::Result<Vec<_>>>()?;
+						let rt = p.return_descriptor.as_ref().map(|t| map_ty(rm, t)).transpose()?;
+						cps(ParsedMethodDescriptor { parameter_descriptors: ps, return_descriptor: rt }.write().as_inner()) }
+					_ => { let p = unsafe { ReturnDescriptorSlice::from_inner_unchecked(&js) }.parse()?; parsed.set(true);
+						cps(ParsedReturnDescriptor(p.0.as_ref().map(|t| map_ty(rm, t)).transpose()?).write().as_inner()) }
+				})
+			})) {
+				Ok(Ok(x)) => (true, Some(x)),
+				Ok(Err(_)) => (parsed.get(), None),
+				Err(p) => { r.count("shape_law_parse_or_write_panicked"); let what = format!("duke's parse / write panicked on {}: {p}", show(d)); r.violation(what.clone(), replay(&what)); return; }
+			};
+			let in_grammar = match kind { 0 => o_field(d).is_some(), 1 => o_method(d).is_some(), _ => o_return(d).is_some() };
+			if accepted != in_grammar {
+				let what = format!("duke's {} descriptor parser {} {}, the JVMS grammar (reference recogniser) says the opposite", ["field", "method", "return"][*kind as usize], if accepted { "accepts" } else { "rejects" }, show(d));
+				r.violation(what.clone(), replay(&what));
+			}
+			let Some(want) = via_tree else { return };
+			r.count("shape_law_parse_map_write");
+			if let Some(Ok(Ans::RStr(got))) = eval_a(rm, q) {
+				if got.as_ref() != Some(&want) {
+					let what = format!("{who}::{} = {}, but parse -> map_class on the parsed type -> write (duke's own parser and printer) gives {}", show_q(q), show_ans(&Ans::RStr(got.clone())), show(&want));
+					r.violation(what.clone(), replay(&what));
+				}
+			}
+			// a field descriptor is a return descriptor: the conversion commutes with the rewrite
+			if *kind == 0 {
+				let fd = field_desc(d);
+				let a = guarded(AssertUnwindSafe(|| rm.map_field_desc(&fd).ok().map(|x| cps(ReturnDescriptor::from(x).as_inner()))));
+				let b = guarded(AssertUnwindSafe(|| rm.map_return_desc(&ReturnDescriptor::from(fd.clone())).ok().map(|x| cps(x.as_inner()))));
+				r.count("shape_law_field_as_return");
+				if a != b { let what = format!("{who}: map_return_desc(ReturnDescriptor::from({})) = {:?} but ReturnDescriptor::from(map_field_desc(..)) = {:?}", show(d), b.as_ref().map(|x| x.as_ref().map(|x| show(x))), a.as_ref().map(|x| x.as_ref().map(|x| show(x)))); r.violation(what.clone(), replay(&what)); }
+			}
+		}
+		Q::ClassAny(c) => {
+			// class name -> field descriptor commutes with the remapper (object and array class names of the grammar)
+			let is_arr = c.first() == Some(&('[' as u32));
+			if (is_arr && o_field(c).is_none()) || (!is_arr && !o_class_name(c)) { return; }
+			let js = jstring(c);
+			let sl = unsafe { ClassNameSlice::from_inner_unchecked(&js) };
+			let a = guarded(AssertUnwindSafe(|| rm.map_field_desc(&FieldDescriptor::from_class(sl)).ok().map(|x| cps(x.as_inner()))));
+			let b = guarded(AssertUnwindSafe(|| rm.map_class_any(sl).ok().map(|x| cps(FieldDescriptor::from_class(&x).as_inner()))));
+			r.count("shape_law_from_class");
+			if a != b || !matches!(a, Ok(Some(_))) {
+				let what = format!("{who}: map_field_desc(FieldDescriptor::from_class({})) = {:?} but FieldDescriptor::from_class(map_class_any(..)) = {:?}", show(c), a.as_ref().map(|x| x.as_ref().map(|x| show(x))), b.as_ref().map(|x| x.as_ref().map(|x| show(x))));
+				r.violation(what.clone(), replay(&what));
+			}
+		}
+		_ => {}
+	}
+}
+
+/// A law on the implementation alone: when a member is found, the descriptor of the answer is the descriptor of the
+/// query sent through map_field_desc / map_method_desc of the SAME remapper (what dukebox relies on when it remaps a
+/// reference and a descriptor side by side).  It holds when every class row is complete in the three namespaces
+/// involved (first, from, to), the names of the first and of the `from` namespace are pairwise distinct, and every
+/// class name a row descriptor mentions is a first-namespace name or is not some class's `from` name
+/// (C06_member_desc_coherent; a partial row breaks it: C06_member_desc_needs_complete).
+fn member_desc_law(r: &mut Report, w: &World, inh: &[(S, Vec<S>)], _rf: &Ref, rb: &impl BRemapper) -> bool {
+	let (f, t) = (w.from, w.to);
+	let col = |j: usize| -> Vec<&S> { w.m.classes.iter().filter_map(|c| c.names[j].as_ref()).collect() };
+	let distinct = |v: &Vec<&S>| v.iter().enumerate().all(|(i, a)| v[..i].iter().all(|b| a != b));
+	let complete = w.m.classes.iter().all(|c| c.names[0].is_some() && c.names[f].is_some() && c.names[t].is_some());
+	let (c0, cf) = (col(0), col(f));
+	let rows_ok = w.m.classes.iter().all(|c| c.fields.iter().map(|x| (false, &x.desc)).chain(c.methods.iter().map(|x| (true, &x.desc))).all(|(method, d)| {
+		let in_grammar = if method { o_method(d).is_some() } else { o_field(d).is_some() };
+		match ref_desc_names(d) { Some(ns) if in_grammar => ns.iter().all(|n| c0.contains(&n) || !cf.contains(&n)), _ => false } }));
+	let scannable = cf.iter().all(|n| !n.is_empty() && !n.contains(&(';' as u32)));
+	if !(complete && distinct(&c0) && distinct(&cf) && rows_ok && scannable) { r.count("desc_law_world_outside_hypotheses"); return false; }
+	r.count("desc_law_world_inside_hypotheses");
+	let mut seen: Vec<(bool, &S, &Key)> = vec![];
+	for q in &w.queries {
+		let (method, o, k) = match q {
+			Q::Field(o, k) | Q::FieldFail(o, k) | Q::FieldRef(o, k) => (false, o, k),
+			Q::Method(o, k) | Q::MethodFail(o, k) | Q::MethodRefObj(o, k) => (true, o, k),
+			_ => continue,
+		};
+		if seen.contains(&(method, o, k)) { continue; }
+		seen.push((method, o, k));
+		let qf = if method { Q::MethodFail(o.clone(), k.clone()) } else { Q::FieldFail(o.clone(), k.clone()) };
+		let Ok(Ans::ROptKey(Some(Some(found)))) = eval_b(rb, &qf) else { continue };
+		let Some(Ok(Ans::RStr(d))) = eval_a(rb, &Q::Desc(if method { 1 } else { 0 }, k.1.clone())) else { continue };
+		r.count("desc_law_checked");
+		if d.as_ref() != Some(&found.1) {
+			let what = format!("{} = Ok(Some({})), but {} of the same remapper = {}", show_q(&qf), show_key(&found),
+				show_q(&Q::Desc(if method { 1 } else { 0 }, k.1.clone())), show_ans(&Ans::RStr(d.clone())));
+			r.violation(what.clone(), replay_text(w, inh, &what));
+		}
+	}
+	true
+}
+
 /// known-finding classifier (none recorded: F5 was repaired by a fix: commit)
 fn classify_known(_rf: &Ref, _q: &Q, _a: &Ans) -> Option<String> { None }
 
 /// returns the Gallina text of the remapped providers and of the inherited round-trip queries
-fn roundtrip<const N: usize>(r: &mut Report, w: &World, qm: &Mappings<N, NsAny>, rb: &impl BRemapper, provs: &Vec<JarSuperProv>, inh: &[(S, Vec<S>)]) -> (String, String) {
+fn roundtrip<const N: usize>(r: &mut Report, w: &World, qm: &Mappings<N, NsAny>, rb: &impl BRemapper, provs: &Vec<JarSuperProv>, inh: &[(S, Vec<S>)], acyc: bool) -> (String, String) {
 	let none = ("[]".to_string(), "[]".to_string());
 	let (x, y) = (w.from, w.to);
 	let Ok(Ok(provs_y)) = guarded(AssertUnwindSafe(|| JarSuperProv::remap(rb, provs))) else { r.violation("JarSuperProv::remap failed".into(), replay_text(w, inh, "JarSuperProv::remap failed")); return none; };
 	let (Ok(nx), Ok(ny)) = (Namespace::<N>::new(x), Namespace::<N>::new(y)) else { return none };
 	let back = match guarded(AssertUnwindSafe(|| qm.remapper_b(ny, nx, &provs_y))) { Ok(Ok(b)) => b, _ => { r.violation("remapper_b(to, from) failed although remapper_b(from, to) succeeded".into(), replay_text(w, inh, "remapper_b(to, from) failed")); return none; } };
+	// the same tables without any inheritance information (C06_roundtrip: directly declared members come back whatever the providers are)
+	let back_ns = match guarded(AssertUnwindSafe(|| qm.remapper_b(ny, nx, NoSuperClassProvider::new()))) { Ok(Ok(b)) => b, _ => { r.violation("remapper_b(to, from, NoSuperClassProvider) failed although remapper_b(from, to) succeeded".into(), replay_text(w, inh, "remapper_b(to, from, NoSuperClassProvider) failed")); return none; } };
 	let both: Vec<&MClass> = w.m.classes.iter().filter(|c| c.names[x].is_some() && c.names[y].is_some()).collect();
 	let count = |ns: usize, n: &S| both.iter().filter(|c| c.names[ns].as_ref() == Some(n)).count();
 	// a class name the mappings name injectively, or that they do not touch at all
@@ -747,21 +935,38 @@ fn roundtrip<const N: usize>(r: &mut Report, w: &World, qm: &Mappings<N, NsAny>,
 				let Ok(Ans::RKey3(Some((cy, k2)))) = eval_b(rb, &q1) else { continue };
 				let q2 = if method { Q::MethodRefObj(cy.clone(), k2.clone()) } else { Q::FieldRef(cy.clone(), k2.clone()) };
 				let b = eval_b(&back, &q2);
+				let b_ns = eval_b(&back_ns, &q2);
 				r.count("roundtrip_member");
 				if k2 != *ky || b != Ok(Ans::RKey3(Some((cx.clone(), kx.clone())))) {
 					let what = format!("round trip: {} = {}.{}, and back {:?}; the mappings say {}", show_q(&q1), show(&cy), show_key(&k2), b.as_ref().map(show_ans), show_key(ky));
 					r.violation(what.clone(), replay_text(w, inh, &what));
+				} else if b_ns != b {
+					let what = format!("round trip: {} = {}.{}, and back without inheritance information (NoSuperClassProvider) {:?}", show_q(&q1), show(&cy), show_key(&k2), b_ns.as_ref().map(show_ans));
+					r.violation(what.clone(), replay_text(w, inh, &what));
 				}
+				// a member nobody declares, asked without inheritance information: the fall-back (class and descriptor rewritten, name kept)
+				let nope = (s("\u{1F980}nope"), k2.1.clone());
+				let q3 = if method { Q::MethodRefObj(cy.clone(), nope.clone()) } else { Q::FieldRef(cy.clone(), nope.clone()) };
+				let fb = eval_b(&back_ns, &q3);
+				let want_fb = match (eval_a(&back_ns, &Q::Class(cy.clone())), eval_a(&back_ns, &Q::Desc(if method { 1 } else { 0 }, k2.1.clone()))) {
+					(Some(Ok(Ans::Str(c))), Some(Ok(Ans::RStr(d)))) => Some(Ans::RKey3(d.map(|d| (c, (nope.0.clone(), d))))), _ => None };
+				r.count("fallback_without_inheritance_information");
+				if let Some(want_fb) = want_fb { if fb != Ok(want_fb.clone()) {
+					let what = format!("{} against remapper_b(.., NoSuperClassProvider) = {:?}, expected the fall-back {}", show_q(&q3), fb.as_ref().map(show_ans), show_ans(&want_fb));
+					r.violation(what.clone(), replay_text(w, inh, &what));
+				} }
 			}
 		}
 	}
 	// ---- members reached through inheritance (and fall-back keys), for every owner of the queries ----
 	// a class map that is not injective can make the remapped provider cyclic (A -> X, B -> X, A extends B):
 	// the search then recurses without bound (outside the acyclicity hypothesis, see cycle_probe)
+	// (a class map that is not injective can make the remapped provider cyclic — A -> X, B -> X, A extends B —
+	// the way back then answers Err where the search meets the cycle; the model follows)
 	let inh_y = flat_inh(&provs_y);
-	if !acyclic(&inh_y) { r.count("rt_skipped_remapped_provider_cyclic"); return none; }
+	if !acyclic(&inh_y) { r.count("rt_remapped_provider_cyclic"); }
 	let rt = RtRef { rf: Ref { m: &w.m, from: x, to: y, inh }, both: both.clone() };
-	let world_ok = rt.world_ok();
+	let world_ok = acyc && !w.big && rt.world_ok();
 	if world_ok { r.count("rt_world_inside_hypotheses"); } else { r.count("rt_world_outside_hypotheses"); }
 	let mut seen: Vec<(bool, S, Key)> = vec![];
 	let mut rts: Vec<String> = vec![];
@@ -784,7 +989,7 @@ fn roundtrip<const N: usize>(r: &mut Report, w: &World, qm: &Mappings<N, NsAny>,
 		};
 		let inside = world_ok && rt.owner_ok(method, o) && rt.query_ok(method, o, k);
 		let returned = a2 == Some((o.clone(), k.clone()));
-		let kind = rt.kind(method, o, k);
+		let kind = if w.big { "tower of diamonds" } else if acyc { rt.kind(method, o, k) } else { "cyclic provider" };
 		if inside {
 			r.count(&format!("rt_inside:{kind}"));
 			if !returned {
@@ -900,7 +1105,131 @@ fn world_f5() -> World {
 		Q::MethodRef(s("Sub"), (s("m"), s("()V"))), Q::FieldRef(s("Sub"), (s("f"), s("I"))), Q::Method(s("Base"), (s("m"), s("()V"))),
 		Q::Method(s("SubSub"), (s("m"), s("()V"))),
 	];
-	World { m, from: 0, to: 1, provs: vec![vec![(s("SubSub"), vec![s("Sub")]), (s("Sub"), vec![s("Base")]), (s("Base"), vec![s("java/lang/Object")])]], queries, kind: "fixed" }
+	World { m, from: 0, to: 1, provs: vec![vec![(s("SubSub"), vec![s("Sub")]), (s("Sub"), vec![s("Base")]), (s("Base"), vec![s("java/lang/Object")])]], queries, kind: "fixed", big: false }
+}
+
+/// The demo inputs of the two repairs of the super-type search (classS4 / classS5 rows of quill/tests/remap_input.tiny):
+/// (a) classS4 and classS5 are super types of each other: methodFromS5 asked on classS4 is found before the cycle
+/// closes, a member nobody declares is an Err (it used to overflow the stack);
+/// (b) a tower of 64 diamonds t0 -> (l0, r0) -> t1 -> ... -> classS5: methodFromS5 is found at the very top of the
+/// recursion, a member nobody declares falls back (it used to take 2^64 steps).
+fn world_repo_demo(tower: bool) -> World {
+	let cls = |n: &str| MClass { names: names_row(&[&format!("classS{n}"), &format!("classS{n}_")]), doc: None,
+		fields: vec![MField { desc: s("I"), names: names_row(&[&format!("fieldFromS{n}"), &format!("fieldFromS{n}_")]), doc: None }],
+		methods: vec![MMeth { desc: s("(I)I"), names: names_row(&[&format!("methodFromS{n}"), &format!("methodFromS{n}_")]), doc: None, params: vec![] }] };
+	let m = MMappings { ns: vec![s("namespaceA"), s("namespaceB")], doc: None, classes: vec![cls("4"), cls("5")] };
+	let (owner, inh) = if tower {
+		let mut inh = vec![];
+		for i in 0..64 {
+			let next = if i + 1 == 64 { s("classS5") } else { s(&format!("t{}", i + 1)) };
+			inh.push((s(&format!("t{i}")), vec![s(&format!("l{i}")), s(&format!("r{i}"))]));
+			inh.push((s(&format!("l{i}")), vec![next.clone()]));
+			inh.push((s(&format!("r{i}")), vec![next]));
+		}
+		(s("t0"), inh)
+	} else { (s("classS4"), vec![(s("classS4"), vec![s("classS5")]), (s("classS5"), vec![s("classS4")])]) };
+	let queries = vec![
+		Q::Method(owner.clone(), (s("methodFromS5"), s("(I)I"))), Q::MethodRefObj(owner.clone(), (s("methodFromS5"), s("(I)I"))),
+		Q::Method(owner.clone(), (s("doesNotExist"), s("(I)I"))), Q::MethodFail(s("classS5"), (s("doesNotExist"), s("(I)I"))),
+		Q::Field(owner.clone(), (s("doesNotExist"), s("I"))), Q::FieldFail(owner.clone(), (s("doesNotExist"), s("I"))), Q::FieldRef(owner.clone(), (s("fieldFromS5"), s("I"))),
+	];
+	World { m, from: 0, to: 1, provs: vec![inh], queries, kind: "repair-demos", big: tower }
+}
+
+/// three namespaces, every query with from = intermediary (not the first namespace): the stored descriptors are
+/// written in the first namespace, keys must be asked in `from`, answers come in `to`; Sub declares nothing
+fn world_three_ns(from: usize, to: usize) -> World {
+	let a = MClass { names: names_row(&["A", "b/A1", "n/AN"]), doc: None,
+		fields: vec![MField { desc: s("LB;"), names: names_row(&["f", "f1", "fN"]), doc: None }, MField { desc: s("[[LA;"), names: names_row(&["g", "g1", "gN"]), doc: None }],
+		methods: vec![MMeth { desc: s("(LA;[LB;I)LB;"), names: names_row(&["m", "m1", "mN"]), doc: None, params: vec![] }, MMeth { desc: s("(LU;)V"), names: names_row(&["<init>", "<init>", "<init>"]), doc: None, params: vec![] }] };
+	let b = MClass { names: names_row(&["B", "b/B1", "n/BN"]), doc: None, fields: vec![], methods: vec![MMeth { desc: s("()LA;"), names: names_row(&["get", "get1", "getN"]), doc: None, params: vec![] }] };
+	let sub = MClass { names: names_row(&["S", "b/S1", "n/SN"]), doc: None, fields: vec![], methods: vec![] };
+	let m = MMappings { ns: vec![s("official"), s("intermediary"), s("named")], doc: None, classes: vec![a, b, sub] };
+	let col = |c: &str| -> S { let i = ["A", "B", "S"].iter().position(|x| *x == c).unwrap(); m.classes[i].names[from].clone().unwrap() };
+	let d = |x: &str| -> S { let rf = Ref { m: &m, from, to, inh: &[] }; rf.desc(0, from, &s(x)).flatten().unwrap() };
+	let nm = |row: &NamesRow| row[from].clone().unwrap();
+	let (ca, cb, cs) = (col("A"), col("B"), col("S"));
+	let a_ = &m.classes[0]; let b_ = &m.classes[1];
+	let queries = vec![
+		Q::Field(cs.clone(), (nm(&a_.fields[0].names), d("LB;"))), Q::FieldRef(cs.clone(), (nm(&a_.fields[1].names), d("[[LA;"))), Q::FieldFail(ca.clone(), (nm(&a_.fields[0].names), d("LB;"))),
+		Q::Method(cs.clone(), (nm(&a_.methods[0].names), d("(LA;[LB;I)LB;"))), Q::MethodRefObj(ca.clone(), (nm(&a_.methods[0].names), d("(LA;[LB;I)LB;"))), Q::MethodRef(cs.clone(), (nm(&a_.methods[1].names), d("(LU;)V"))),
+		Q::MethodFail(cb.clone(), (nm(&b_.methods[0].names), d("()LA;"))), Q::Method(cs.clone(), (nm(&b_.methods[0].names), d("()LA;"))),
+		// the descriptor as stored (first namespace) is a different key unless from is the first namespace
+		Q::Field(cs.clone(), (nm(&a_.fields[0].names), s("LB;"))), Q::Method(ca.clone(), (nm(&a_.methods[0].names), s("(LA;[LB;I)LB;"))),
+		Q::Class(ca.clone()), Q::ClassFail(cb.clone()), Q::ClassAny({ let mut x = s("[[L"); x.extend(cs.clone()); x.push(';' as u32); x }),
+		Q::Desc(0, d("[LB;")), Q::Desc(1, d("(LA;[LB;I)LB;")), Q::Desc(2, d("LA;")), Q::Desc(2, s("V")),
+	];
+	World { m, from, to, provs: vec![vec![(cs.clone(), vec![s("java/lang/Object"), ca.clone()]), (ca, vec![s("java/lang/Object")])]], queries, kind: "fixed", big: false }
+}
+/// two namespaces whose class names are a permutation of one another (A -> B, B -> C, C -> A), members named by a
+/// rotation as well: injective in both directions, every name of one namespace is another class's name in the other
+fn world_permutation(from: usize, to: usize) -> World {
+	let mk = |x: &str, y: &str, fd: &str, fx: &str, fy: &str, md: &str, mx: &str, my: &str| MClass { names: names_row(&[x, y]), doc: None,
+		fields: vec![MField { desc: s(fd), names: names_row(&[fx, fy]), doc: None }], methods: vec![MMeth { desc: s(md), names: names_row(&[mx, my]), doc: None, params: vec![] }] };
+	let m = MMappings { ns: vec![s("official"), s("named")], doc: None, classes: vec![
+		mk("A", "B", "LB;", "f", "g", "(LA;)LC;", "m", "n"), mk("B", "C", "[LC;", "g", "h", "(LB;LB;)V", "n", "m"), mk("C", "A", "LA;", "h", "f", "()[LA;", "m", "m")] };
+	let rf = Ref { m: &m, from, to, inh: &[] };
+	let mut queries = vec![];
+	for c in &m.classes {
+		let cn = c.names[from].clone().unwrap();
+		for owner in [cn.clone(), s("Sub")] {
+			for f in &c.fields { queries.push(Q::FieldRef(owner.clone(), (f.names[from].clone().unwrap(), rf.desc(0, from, &f.desc).flatten().unwrap()))); }
+			for me in &c.methods { let k = (me.names[from].clone().unwrap(), rf.desc(0, from, &me.desc).flatten().unwrap()); queries.push(Q::MethodRefObj(owner.clone(), k.clone())); queries.push(Q::MethodFail(owner.clone(), k)); }
+		}
+		queries.push(Q::Class(cn.clone())); queries.push(Q::Desc(0, { let mut x = s("[L"); x.extend(cn); x.push(';' as u32); x }));
+	}
+	queries.push(Q::Desc(1, s("(LA;LB;)LC;")));
+	let n = |x: &str| -> S { m.classes.iter().find(|c| c.names[0] == Some(s(x))).unwrap().names[from].clone().unwrap() };
+	World { provs: vec![vec![(s("Sub"), vec![n("A"), n("C")]), (n("A"), vec![n("B")])]], m, from, to, queries, kind: "fixed", big: false }
+}
+
+/// A tower of `k` diamonds: T_i has the super types L_i and R_i (plus, sometimes, a shortcut further down), both have
+/// T_{i+1}; the number of paths from T_0 doubles with every level, the number of classes is 3k + 1.  A key is declared
+/// by the class at the very bottom, by one R_j only (everything below it is searched first, through L_j, and found
+/// empty), by nobody, or by T_0 itself; sometimes the bottom closes a cycle back to the top.
+fn world_tower(rng: &mut Rng, k: usize, cyclic: bool) -> World {
+	let n = 2 + rng.below(2);
+	let from = rng.below(n); let to = (from + 1 + rng.below(n - 1)) % n;
+	let nm = |p: &str, i: usize| s(&format!("{p}{i}"));
+	let bottom = nm("t", k);
+	let j = rng.below(k);
+	let row = |c: &S, tag: &str| -> NamesRow { (0..n).map(|ns| { let mut x = c.clone(); if ns > 0 { x.extend(s(&format!("_{tag}{ns}"))); } Some(x) }).collect() };
+	let member = |name: &str, tag: &str| -> NamesRow { (0..n).map(|ns| Some(s(&format!("{name}{}", if ns > 0 { format!("_{tag}{ns}") } else { String::new() })))).collect() };
+	// class rows: bottom (declares `deep`), R_j (declares `right`), T_0 (declares `top`), and L_0 without members
+	let mk = |c: &S, fields: Vec<MField>, methods: Vec<MMeth>| MClass { names: row(c, "c"), doc: None, fields, methods };
+	let t0 = nm("t", 0); let rj = nm("r", j); let l0 = nm("l", 0);
+	let classes = vec![
+		mk(&bottom, vec![MField { desc: s("I"), names: member("deep", "f"), doc: None }], vec![MMeth { desc: { let mut d = s("(L"); d.extend(t0.clone()); d.extend(s(";)V")); d }, names: member("deep", "m"), doc: None, params: vec![] }]),
+		mk(&rj, vec![], vec![MMeth { desc: s("()I"), names: member("right", "m"), doc: None, params: vec![] }]),
+		mk(&t0, vec![MField { desc: s("J"), names: member("top", "f"), doc: None }], vec![]),
+		mk(&l0, vec![], vec![]),
+	];
+	let m = MMappings { ns: ["official", "intermediary", "named"][..n].iter().map(|x| s(x)).collect(), doc: None, classes };
+	let rf = Ref { m: &m, from, to, inh: &[] };
+	let inn = |c: &S| -> S { m.classes.iter().find(|r| r.names[0].as_ref() == Some(c)).map(|r| r.names[from].clone().unwrap()).unwrap_or_else(|| c.clone()) };
+	let mut inh: Vec<(S, Vec<S>)> = vec![];
+	for i in 0..k {
+		let mut sup = vec![inn(&nm("l", i)), inn(&nm("r", i))];
+		if rng.chance(1, 5) && i + 2 <= k { sup.insert(rng.below(3), inn(&nm("t", i + 2))); }
+		inh.push((inn(&nm("t", i)), sup));
+		inh.push((inn(&nm("l", i)), vec![inn(&nm("t", i + 1))]));
+		inh.push((inn(&nm("r", i)), vec![inn(&nm("t", i + 1))]));
+	}
+	if cyclic { inh.push((inn(&bottom), vec![inn(&nm("t", rng.below(k)))])); }
+	rng.shuffle(&mut inh);
+	let key = |method: bool, ci: usize, mi: usize| -> Key { let c = &m.classes[ci]; if method { let x = &c.methods[mi]; (x.names[from].clone().unwrap(), rf.desc(0, from, &x.desc).flatten().unwrap()) } else { let x = &c.fields[mi]; (x.names[from].clone().unwrap(), rf.desc(0, from, &x.desc).flatten().unwrap()) } };
+	let top = inn(&t0);
+	let mut queries = vec![];
+	for owner in [top.clone(), inn(&nm("l", k / 2)), inn(&nm("t", k - 1)), s("NotInTheTower")] {
+		queries.push(Q::MethodFail(owner.clone(), key(true, 0, 0)));
+		queries.push(Q::Field(owner.clone(), key(false, 0, 0)));
+		queries.push(Q::MethodRefObj(owner.clone(), key(true, 1, 0)));
+		queries.push(Q::FieldRef(owner.clone(), key(false, 2, 0)));
+		queries.push(Q::Method(owner.clone(), (s("declaredNowhere"), s("()V"))));
+		queries.push(Q::FieldFail(owner.clone(), (s("declaredNowhere"), s("I"))));
+	}
+	queries.push(Q::Class(top.clone())); queries.push(Q::Desc(1, key(true, 0, 0).1));
+	World { m, from, to, provs: vec![inh], queries, kind: "towers", big: true }
 }
 
 /// deal the cases into `k` shards of about the same number of bytes (coqc's time is dominated by reading the terms)
@@ -924,15 +1253,44 @@ pub fn run(ctx: &Ctx) -> anyhow::Result<Report> {
 	let mut r = Report::new("C06", "C06.Run");
 	r.shard_size = 300;
 	let mut rng = Rng::new(ctx.seed);
-	r.rule = "worlds = (mapping set with 2-4 namespaces and partial rows, from/to in all positions incl. from = to, one or two JarSuperProv providers over an acyclic graph: chains, diamonds, random DAGs, classes without rows, super types without entries) x up to ~60 queries (every member key under every name it carries in `from` against every class, near misses, class / array / descriptor queries). Streams: injective names, colliding names (violates the round-trip hypotheses), malformed row descriptors (remapper_b must fail), generic mapmodel mappings, map_desc through a hand-written table remapper with arbitrary class maps. A world is non-trivial when at least one member query was answered from a table; distinct by (mappings, from, to, providers).".into();
+	r.rule = "worlds = (mapping set with 2-4 namespaces and partial rows, from/to in all positions incl. from = to, one or two JarSuperProv providers: chains, diamonds, random DAGs, classes without rows, super types without entries) x up to ~60 queries (every member key under every name it carries in `from` against every class, near misses, class / array / descriptor queries). Streams: injective names; overlapping (every namespace draws its class and member names from the same pool, injectively per namespace: A -> B, B -> C, half with complete rows, >= 3 namespaces in half of them); colliding names (violates the round-trip hypotheses); cyclic (one or two extra edges: self loops, back edges, cycles behind a declaring class); towers of 2..64 diamonds (2^k paths) with keys declared at the bottom, in one right branch, at the top, nowhere, a quarter with a cycle from the bottom; malformed row descriptors (remapper_b must fail); generic mapmodel mappings; fixed worlds (unmapped owner; three namespaces in four from/to combinations; names that are a permutation of one another, both directions); map_desc through a hand-written table remapper with arbitrary class maps. A world is non-trivial when at least one member query was answered from a table; distinct by (mappings, from, to, providers).".into();
 
 	run_any(&mut r, &world_f5())?;
+	for (from, to) in [(1, 2), (2, 1), (1, 0), (0, 2)] { run_any(&mut r, &world_three_ns(from, to))?; }
+	for (from, to) in [(0, 1), (1, 0)] { run_any(&mut r, &world_permutation(from, to))?; }
+	run_any(&mut r, &world_repo_demo(false))?;
 	cycle_probe(&mut r);
+	// towers of diamonds: 2^k paths, 3k + 1 classes
+	// smallest first, and a tower that takes seconds instead of microseconds is reported (with the tower) and ends the
+	// stream: a search that walks every path again would otherwise keep the process busy for 2^64 steps
+	let mut ks: Vec<(usize, bool)> = (0..(if ctx.thorough { 120 } else { 24 })).map(|i| (match i % 8 { 0 => 2, 1 => 9, 2 => 17, 3 => 19, 4 => 21, 5 => 33, 6 => 64, _ => 3 + rng.below(60) }, i % 3 == 2)).collect();
+	ks.sort();
+	let mut scales = true;
+	for (k, cyclic) in ks {
+		let w = world_tower(&mut rng, k, cyclic);
+		r.count(&format!("tower_diamonds_{}", match k { 0..=9 => "2-9", 10..=31 => "10-31", _ => "32-64" }));
+		let t0 = std::time::Instant::now();
+		run_any(&mut r, &w)?;
+		let dt = t0.elapsed();
+		if dt.as_secs() >= 8 {
+			let inh: Vec<(S, Vec<S>)> = w.provs.concat();
+			let what = format!("the queries against a tower of {k} diamonds ({} classes, 2^{k} paths from the top) took {:.1} s: the search does not look at every class once", 3 * k + 1, dt.as_secs_f64());
+			r.violation(what.clone(), replay_text(&w, &inh, &what));
+			scales = false;
+			break;
+		}
+	}
+	if scales { run_any(&mut r, &world_repo_demo(true))?; }
 
 	let nworlds = if ctx.thorough { 6000 } else { 500 };
 	for i in 0..nworlds {
 		let n = 2 + rng.below(3);
-		let cfg = match i % 10 { 0..=5 => WCfg { n, injective: true, malformed: false, kind: "injective" }, 6..=8 => WCfg { n, injective: false, malformed: false, kind: "colliding" }, _ => WCfg { n, injective: rng.chance(1, 2), malformed: true, kind: "malformed-rows" } };
+		let cfg = match i % 10 {
+			0..=3 => WCfg { n, injective: true, malformed: false, overlap: false, cyclic: false, kind: "injective" },
+			4 | 5 => WCfg { n: if i % 20 < 10 { n.max(3) } else { n }, injective: true, malformed: false, overlap: true, cyclic: false, kind: "overlapping" },
+			6 | 7 => WCfg { n, injective: false, malformed: false, overlap: false, cyclic: false, kind: "colliding" },
+			8 => WCfg { n, injective: true, malformed: false, overlap: i % 20 < 10, cyclic: true, kind: "cyclic" },
+			_ => WCfg { n, injective: rng.chance(1, 2), malformed: true, overlap: false, cyclic: false, kind: "malformed-rows" } };
 		let w = gen_world(&mut rng, &cfg);
 		run_any(&mut r, &w)?;
 	}
@@ -951,7 +1309,7 @@ pub fn run(ctx: &Ctx) -> anyhow::Result<Report> {
 			for me in &c.methods { let d = rf.desc(0, from, &me.desc).flatten().unwrap_or_else(|| me.desc.clone()); queries.push(Q::MethodRef(cn.clone(), (me.names[from].clone().unwrap_or_else(|| me.names[0].clone().unwrap()), d.clone()))); queries.push(Q::Desc(1, d)); }
 		}
 		queries.truncate(60);
-		run_any(&mut r, &World { m, from, to, provs: vec![vec![]], queries, kind: "generic" })?;
+		run_any(&mut r, &World { m, from, to, provs: vec![vec![]], queries, kind: "generic", big: false })?;
 	}
 	// map_desc with arbitrary class maps (targets may be empty, contain `;` or `L`)
 	let alpha = s("LL;;[()IVa/$");
@@ -965,6 +1323,7 @@ pub fn run(ctx: &Ctx) -> anyhow::Result<Report> {
 			d
 		} else { (0..rng.below(9)).map(|_| *rng.pick(&alpha[..])).collect() };
 		let rm = TableRemapper(tbl.clone());
+		fbh::report::crumb(&format!("property C06\nwhat: the process died (abort / endless loop) inside map_desc\ndescriptor {}\nclass map {:?}\n", show(&d), tbl.iter().map(|(k, v)| (show(k), show(v))).collect::<Vec<_>>()));
 		match eval_a(&rm, &Q::Desc((i % 3) as u8, d.clone())).unwrap() {
 			Err(p) => r.violation(format!("map_desc({}) panicked: {p}", show(&d)), format!("property C06\nmap_desc panicked: {p}\ndescriptor {}\ntable {:?}\n", show(&d), tbl)),
 			Ok(a) => {
@@ -977,6 +1336,7 @@ pub fn run(ctx: &Ctx) -> anyhow::Result<Report> {
 					let want = ref_desc(&d, &f);
 					if *res != want { let what = format!("map_desc({}) = {:?}, parse-map-print gives {:?}", show(&d), res.as_ref().map(|x| show(x)), want.as_ref().map(|x| show(x))); r.violation(what.clone(), format!("property C06\n{what}\ntable {:?}\n", tbl)); }
 				}
+				shape_law(&mut r, &rm, &Q::Desc((i % 3) as u8, d.clone()), "hand-written table remapper", &|what| format!("property C06\n{what}\ntable {:?}\n", tbl));
 				r.case("map-desc", format!("CDesc {} {} {}", glist(tbl.iter().map(|(k, v)| gpair(gstr(k), gstr(v)))), gstr(&d), g_ans(&a)));
 			}
 		}
@@ -985,8 +1345,9 @@ pub fn run(ctx: &Ctx) -> anyhow::Result<Report> {
 	Ok(r)
 }
 
-/// What the real code does on a cyclic provider (outside the theorems' hypotheses): run in a child
-/// process, because unbounded recursion ends in a stack overflow that cannot be caught.
+/// What the real code does on a cyclic provider, in a child process: before "fix: cyclic inheritance information is
+/// an error for the remapper" the recursion was unbounded and ended in a stack overflow that cannot be caught;
+/// now the call returns Err (and a change that brings the recursion back kills only the child).
 fn cycle_probe_child() -> ! {
 	let m = MMappings { ns: vec![s("a"), s("b")], doc: None, classes: vec![MClass { names: names_row(&["A", "A_"]), doc: None, fields: vec![], methods: vec![] }] };
 	let qm: Mappings<2, NsAny> = to_quill(&m).unwrap();
@@ -1000,7 +1361,8 @@ fn cycle_probe(r: &mut Report) {
 	let Ok(exe) = std::env::current_exe() else { return };
 	match std::process::Command::new(exe).env("C06_CYCLE_PROBE", "1").stdout(std::process::Stdio::piped()).stderr(std::process::Stdio::null()).output() {
 		Ok(o) if o.status.success() => { r.count("cycle_probe_returned"); r.notes.push(format!("cyclic provider A -> B -> A, member declared nowhere: the call {}", String::from_utf8_lossy(&o.stdout).trim())); }
-		Ok(o) => { r.count("cycle_probe_child_died"); r.notes.push(format!("cyclic provider A -> B -> A, member declared nowhere: child process ended with {} (unbounded recursion; outside the acyclicity hypothesis, the model answers Err = out of fuel)", o.status)); }
+		Ok(o) => { r.count("cycle_probe_child_died"); r.notes.push(format!("cyclic provider A -> B -> A, member declared nowhere: child process ended with {} (unbounded recursion)", o.status));
+			r.violation(format!("a query against a cyclic provider killed the process ({})", o.status), "property C06\nwhat: the process died on a cyclic provider\nmapping rows: class A | A_\nsuper types: A -> [B], B -> [A]\nquery: map_method(A, m ()V)\n".into()); }
 		Err(_) => {}
 	}
 }
